@@ -44,8 +44,11 @@ pub fn process_indels<IntT: for<'a> UInt<'a>>(
 
     let mut nb_indels = 0;
 
-    // consider indels 1 by one
-    for vec_variants in final_indels.values() {
+    // consider indels 1 by one, in the order of their extremities (not in hash-map order)
+    let mut sorted_indel_keys: Vec<(IntT, IntT)> = final_indels.keys().copied().collect();
+    sorted_indel_keys.sort();
+    for indel_key in &sorted_indel_keys {
+        let vec_variants = &final_indels[indel_key];
         // get taxonomic sampling for each variant
         let bitset_vec: Vec<BitSet> = vec_variants
             .iter()
@@ -94,7 +97,8 @@ pub fn process_indels<IntT: for<'a> UInt<'a>>(
                 .collect();
 
             // sort by frequency (descending) to find the most frequent variant
-            variants.sort_by(|a, b| b.1.cmp(&a.1));
+            // (equally frequent variants: in the order of their inserts, not of path discovery)
+            variants.sort_by(|a, b| b.1.cmp(&a.1).then_with(|| a.0.cmp(&b.0)));
 
             let (ref_allele, _ref_count, ref_bitset) = &variants[0]; // most frequent (REF)
             let (alt_allele, _alt_count, alt_bitset) = &variants[1]; // less frequent (ALT)
@@ -163,6 +167,7 @@ fn dereplicate_indels<IntT: for<'a> UInt<'a>>(
     sorted_extremities.sort_by(|a, b| {
         a.1.cmp(&b.1) // sort by sum of sequence lengths
             .then_with(|| a.0 .0.cmp(&b.0 .0)) // sort by the first IntT value of the key when there's a tie
+            .then_with(|| a.0 .1.cmp(&b.0 .1)) // then by the second, so that the order never depends on the hash map
     });
 
     for (combined_ext, _) in sorted_extremities {
